@@ -75,8 +75,8 @@ theorem floor_unique {x m r r' : Int} (h : IsFloorMultiple x m r) (h' : IsFloorM
   obtain ⟨d, a, b⟩ := h; obtain ⟨d', a', b'⟩ := h'
   have hz := Int.eq_zero_of_dvd_of_natAbs_lt_natAbs (Int.dvd_sub d d') (by omega)
   omega
-theorem two_pow_pos' (n : Nat) : (0 : Int) < 2 ^ n := Int.pow_pos (by decide)
-theorem two_pow_le' {a b : Nat} (h : a ≤ b) : (2 : Int) ^ a ≤ 2 ^ b := by
+theorem two_pow_posI (n : Nat) : (0 : Int) < 2 ^ n := Int.pow_pos (by decide)
+theorem two_pow_leI {a b : Nat} (h : a ≤ b) : (2 : Int) ^ a ≤ 2 ^ b := by
   have := Nat.pow_le_pow_right (show 0 < 2 by decide) h
   exact_mod_cast this
 theorem two_pow_succ_pred {c : Nat} (hc : 0 < c) : (2 : Int) ^ c = 2 * 2 ^ (c - 1) := by
@@ -106,8 +106,8 @@ theorem toInt_tr {w c : Nat} (hw : 0 < w) (h : w ≤ c) (v : BitVec c)
     (h1 : -(2 : Int) ^ (w - 1) ≤ v.toInt) (h2 : v.toInt < (2 : Int) ^ (w - 1)) : (tr w v).toInt = v.toInt := by
   unfold tr
   rw [← BitVec.signExtend_eq_setWidth_of_le v h, BitVec.toInt_signExtend_eq_toInt_bmod_of_le v h, bmod_two_pow hw h1 h2]
-theorem toInt_zero' (c : Nat) : (0 : BitVec c).toInt = 0 := BitVec.toInt_zero
-theorem toInt_one' {c : Nat} (hc : 1 < c) : (1 : BitVec c).toInt = 1 := BitVec.toInt_one hc
+theorem toInt_zeroB (c : Nat) : (0 : BitVec c).toInt = 0 := BitVec.toInt_zero
+theorem toInt_oneB {c : Nat} (hc : 1 < c) : (1 : BitVec c).toInt = 1 := BitVec.toInt_one hc
 
 /-- ceilMultiple, signed T of any width w evaluated at width c ≥ w -/
 theorem ceilMultipleS_ok {w c : Nat} (hw : 1 < w) (hwc : w ≤ c) (s m : BitVec w) (hm : 0 < m.toInt)
@@ -117,9 +117,9 @@ theorem ceilMultipleS_ok {w c : Nat} (hw : 1 < w) (hwc : w ≤ c) (s m : BitVec 
   obtain ⟨r, hr, hrlt⟩ := hrep
   have hc : 0 < c := by omega
   have hc1 : 1 < c := by omega
-  have hPQ : (2 : Int) ^ (w - 1) ≤ 2 ^ (c - 1) := two_pow_le' (by omega)
+  have hPQ : (2 : Int) ^ (w - 1) ≤ 2 ^ (c - 1) := two_pow_leI (by omega)
   have hPQ' : w < c → 2 * (2 : Int) ^ (w - 1) ≤ 2 ^ (c - 1) := fun h => by
-    have := two_pow_le' (show w ≤ c - 1 by omega)
+    have := two_pow_leI (show w ≤ c - 1 by omega)
     rw [two_pow_succ_pred (show 0 < w by omega)] at this; exact this
   obtain ⟨hs1, hs2⟩ := toInt_range s
   obtain ⟨hm1, hm2⟩ := toInt_range m
@@ -129,14 +129,14 @@ theorem ceilMultipleS_ok {w c : Nat} (hw : 1 < w) (hwc : w ≤ c) (s m : BitVec 
   simp only
   by_cases hpos : 0 < s.toInt
   · have hcond : BitVec.slt 0 (sx c s) = true := by
-      rw [BitVec.slt_iff_toInt_lt, hS, toInt_zero' c]; exact hpos
+      rw [BitVec.slt_iff_toInt_lt, hS, toInt_zeroB c]; exact hpos
     rw [if_pos hcond]
     have hv := ceil_pos hm hpos
     have hvr : (s.toInt - 1) + (m.toInt - (s.toInt - 1).tmod m.toInt) = r := ceil_unique hv hr
     have h0 : 0 ≤ (s.toInt - 1).tmod m.toInt := Int.tmod_nonneg _ (by omega)
     have h1 : (s.toInt - 1).tmod m.toInt < m.toInt := Int.tmod_lt_of_pos _ hm
     have e1 : (sx c s - 1).toInt = s.toInt - 1 := by
-      rw [toInt_sub_range hc _ _ (by rw [hS, toInt_one' hc1]; omega) (by rw [hS, toInt_one' hc1]; omega), hS, toInt_one' hc1]
+      rw [toInt_sub_range hc _ _ (by rw [hS, toInt_oneB hc1]; omega) (by rw [hS, toInt_oneB hc1]; omega), hS, toInt_oneB hc1]
     have e2 : (tr w (sx c s - 1)).toInt = s.toInt - 1 := by
       rw [toInt_tr (by omega) hwc _ (by rw [e1]; omega) (by rw [e1]; omega), e1]
     have e3 : (sx c (tr w (sx c s - 1) : BitVec w)).toInt = s.toInt - 1 := by rw [toInt_sx hwc, e2]
@@ -150,7 +150,7 @@ theorem ceilMultipleS_ok {w c : Nat} (hw : 1 < w) (hwc : w ≤ c) (s m : BitVec 
     rw [toInt_tr (by omega) hwc _ (by rw [e6]; omega) (by rw [e6]; omega), e6]
     exact hv
   · have hcond : ¬ (BitVec.slt 0 (sx c s) = true) := by
-      rw [BitVec.slt_iff_toInt_lt, hS, toInt_zero' c]; exact hpos
+      rw [BitVec.slt_iff_toInt_lt, hS, toInt_zeroB c]; exact hpos
     rw [if_neg hcond]
     have hx : s.toInt ≤ 0 := by omega
     have hv := ceil_nonpos hm hx
@@ -159,7 +159,7 @@ theorem ceilMultipleS_ok {w c : Nat} (hw : 1 < w) (hwc : w ≤ c) (s m : BitVec 
     have h1 : (-s.toInt).tmod m.toInt < m.toInt := Int.tmod_lt_of_pos _ hm
     have hnegS : -s.toInt < (2 : Int) ^ (c - 1) := by
       rcases hneg with h | h
-      · have := hPQ' h; have := two_pow_pos' (w - 1); omega
+      · have := hPQ' h; have := two_pow_posI (w - 1); omega
       · omega
     have e1 : (-(sx c s)).toInt = -s.toInt := by
       rw [toInt_neg_range hc _ (by rw [hS]; omega) (by rw [hS]; omega), hS]
@@ -176,7 +176,7 @@ theorem floorMultipleS_ok {w c : Nat} (hw : 1 < w) (hwc : w ≤ c) (s m : BitVec
   obtain ⟨r, hr, hrge⟩ := hrep
   have hc : 0 < c := by omega
   have hc1 : 1 < c := by omega
-  have hPQ : (2 : Int) ^ (w - 1) ≤ 2 ^ (c - 1) := two_pow_le' (by omega)
+  have hPQ : (2 : Int) ^ (w - 1) ≤ 2 ^ (c - 1) := two_pow_leI (by omega)
   obtain ⟨hs1, hs2⟩ := toInt_range s
   obtain ⟨hm1, hm2⟩ := toInt_range m
   have hS : (sx c s).toInt = s.toInt := toInt_sx hwc s
@@ -185,7 +185,7 @@ theorem floorMultipleS_ok {w c : Nat} (hw : 1 < w) (hwc : w ≤ c) (s m : BitVec
   simp only
   by_cases hneg : s.toInt < 0
   · have hcond : (sx c s).slt 0 = true := by
-      rw [BitVec.slt_iff_toInt_lt, hS, toInt_zero' c]; exact hneg
+      rw [BitVec.slt_iff_toInt_lt, hS, toInt_zeroB c]; exact hneg
     simp only [hcond, Bool.not_true, Bool.false_eq_true, if_false]
     have hv := floor_neg hm hneg
     have hvr : (s.toInt + 1) - (s.toInt + 1).tmod m.toInt - m.toInt = r := floor_unique hv hr
@@ -194,7 +194,7 @@ theorem floorMultipleS_ok {w c : Nat} (hw : 1 < w) (hwc : w ≤ c) (s m : BitVec
       rw [Int.neg_tmod] at this; omega
     have h1 : -m.toInt < (s.toInt + 1).tmod m.toInt := Int.lt_tmod_of_pos _ hm
     have e1 : (sx c s + 1).toInt = s.toInt + 1 := by
-      rw [toInt_add_range hc _ _ (by rw [hS, toInt_one' hc1]; omega) (by rw [hS, toInt_one' hc1]; omega), hS, toInt_one' hc1]
+      rw [toInt_add_range hc _ _ (by rw [hS, toInt_oneB hc1]; omega) (by rw [hS, toInt_oneB hc1]; omega), hS, toInt_oneB hc1]
     have e2 : (tr w (sx c s + 1)).toInt = s.toInt + 1 := by
       rw [toInt_tr (by omega) hwc _ (by rw [e1]; omega) (by rw [e1]; omega), e1]
     have e3 : (sx c (tr w (sx c s + 1) : BitVec w)).toInt = s.toInt + 1 := by rw [toInt_sx hwc, e2]
@@ -209,7 +209,7 @@ theorem floorMultipleS_ok {w c : Nat} (hw : 1 < w) (hwc : w ≤ c) (s m : BitVec
     rw [toInt_tr (by omega) hwc _ (by rw [e6]; omega) (by rw [e6]; omega), e6]
     exact hv
   · have hcond : (sx c s).slt 0 = false := by
-      rw [← Bool.not_eq_true, BitVec.slt_iff_toInt_lt, hS, toInt_zero' c]; exact hneg
+      rw [← Bool.not_eq_true, BitVec.slt_iff_toInt_lt, hS, toInt_zeroB c]; exact hneg
     simp only [hcond, Bool.not_false, if_true]
     have hx : 0 ≤ s.toInt := by omega
     have hv := floor_nonneg hm hx
@@ -229,7 +229,7 @@ theorem roundMultipleS_ok {w c : Nat} (hw : 1 < w) (hwc : w ≤ c) (s m : BitVec
     IsRoundMultiple s.toInt m.toInt (roundMultipleS w c s m).toInt := by
   obtain ⟨l, hl, hlge, hup⟩ := hrep
   have hc : 0 < c := by omega
-  have hPQ : (2 : Int) ^ (w - 1) ≤ 2 ^ (c - 1) := two_pow_le' (by omega)
+  have hPQ : (2 : Int) ^ (w - 1) ≤ 2 ^ (c - 1) := two_pow_leI (by omega)
   obtain ⟨hs1, hs2⟩ := toInt_range s
   obtain ⟨hm1, hm2⟩ := toInt_range m
   have hS : (sx c s).toInt = s.toInt := toInt_sx hwc s
@@ -283,12 +283,12 @@ theorem isMultipleS_ok {w c : Nat} (hw : 1 < w) (hwc : w ≤ c) (s m : BitVec w)
   by_cases hd : m.toInt ∣ s.toInt
   · have hz : s.toInt.tmod m.toInt = 0 := Int.tmod_eq_zero_of_dvd hd
     have : (tr w ((sx c s).srem (sx c m)) : BitVec w) = 0 := by
-      apply BitVec.eq_of_toInt_eq; rw [e2, hz, toInt_zero' w]
+      apply BitVec.eq_of_toInt_eq; rw [e2, hz, toInt_zeroB w]
     have hb : ((tr w ((sx c s).srem (sx c m)) : BitVec w) == (0 : BitVec w)) = true := by rw [beq_iff_eq]; exact this
     rw [hb]; simp [hd]
   · have hz : s.toInt.tmod m.toInt ≠ 0 := fun h => hd (Int.dvd_of_tmod_eq_zero h)
     have : (tr w ((sx c s).srem (sx c m)) : BitVec w) ≠ 0 := by
-      intro h; apply hz; rw [← e2, h, toInt_zero' w]
+      intro h; apply hz; rw [← e2, h, toInt_zeroB w]
     have hb : ((tr w ((sx c s).srem (sx c m)) : BitVec w) == (0 : BitVec w)) = false := by rw [beq_eq_false_iff_ne]; exact this
     rw [hb]; simp [hd]
 
